@@ -31,7 +31,8 @@ RULE = ("Item credits are arbitrary: the subgrader is a table-driven ItemGrader 
         "submission). length_error with a wrong count -> StudentFacingError naming both counts; missing_error with a "
         "blank item -> StudentFacingError; otherwise the call must return a grade. Non-trivial = surplus or missing "
         "items together with a partial item credit, or unordered optimum above the positional sum, or a winning grade "
-        "scaled by an answer credit < 1, or nesting, or a predicted error; distinct by spec.")
+        "scaled by an answer credit < 1, or nesting, or a predicted error; distinct by spec."
+        " Every case submits the same text twice to the same grader object (same outcome required); in a third of the cases the subgrader object first serves a rival list grader with the opposite ordering / partial-credit settings.")
 ASSUMPTIONS = ["item texts never contain a delimiter character; pads are plain spaces; expected items are non-blank",
                "the item subgrader strips the student's item (TableGrader does), expected items are table keys as written "
                "(a string-form answer keeps the spaces after a delimiter, as the docs warn)",
